@@ -25,6 +25,9 @@ import (
 const (
 	maxArrayLen      = 1024 * 1024
 	maxBulkStringLen = 1024 * 1024 * 512
+	// maxArrayDepth limits how deep arrays can be nested, the decoder
+	// is recursive and the peer must not control its stack usage.
+	maxArrayDepth = 32
 )
 
 var (
@@ -38,6 +41,8 @@ var (
 	ErrBadArrayLen = errors.New("bad array len")
 	// ErrBadArrayLenTooLong too long array len
 	ErrBadArrayLenTooLong = errors.New("bad array len, too long")
+	// ErrBadArrayDepth too deeply nested arrays
+	ErrBadArrayDepth = errors.New("bad array, nested too deep")
 
 	// ErrBadBulkStringLen for invalid bulk string len
 	ErrBadBulkStringLen = errors.New("bad bulk string len")
@@ -59,8 +64,9 @@ const (
 var CRLF = []byte{CR, LF}
 
 type decoder struct {
-	br  *Reader
-	err error
+	br    *Reader
+	err   error
+	depth int
 }
 
 func newDecoder(r io.Reader, bufSize int) *decoder {
@@ -231,6 +237,12 @@ func (d *decoder) decodeArray() ([]RespValue, error) {
 	case n == -1:
 		return nil, nil
 	}
+	if d.depth >= maxArrayDepth {
+		return nil, ErrBadArrayDepth
+	}
+	d.depth++
+	defer func() { d.depth-- }()
+
 	array := make([]RespValue, n)
 	for i := range array {
 		r, err := d.decode()
